@@ -124,3 +124,39 @@ V('C11', 'name-guess-hard-dependency', T, TM + 'trace_Path',
                         ctx.refs.update(ctx.pointers.get(pname, ()))''', 'C11.R10', 'trace_Path:name-guess')
 V('C11', 'neg-created-modules-annotated', D, M + 'sdl_to_ddl',
   '    created_modules = set()\n', '    created_modules: set[str] = set()\n', None)
+
+# round 4
+T = 'edb/edgeql/tracer.py'
+V('C11', 'revert-fix-result-alias-weak-refs', T,
+  'edb.edgeql.tracer.result_alias_context',
+  '        nctx.weak_refs = ctx.weak_refs\n', '', 'C11.R9',
+  'derived-context-shares-weak_refs')
+V('C11', 'alias-context-forks-only-with-aliases', T,
+  'edb.edgeql.tracer.alias_context',
+  '    ctx = _fork_context(ctx)\n',
+  '    if aliases:\n        ctx = _fork_context(ctx)\n', 'C11.R9',
+  'yields-a-copy')
+V('C11', 'short-name-index-one-overload', T,
+  'edb.edgeql.tracer.TracerContext.get_ref_name_startswith',
+  '''        for objname in self.objects.keys():
+            short_name = str(objname).split('@@', 1)[0]
+            if short_name in prefixes:
+                refs.add(objname)
+''', '''        idx = {str(o).split('@@', 1)[0]: o for o in self.objects}
+        for prefix in prefixes:
+            if prefix in idx:
+                refs.add(idx[prefix])
+''', 'C11.L', 'lossy-key-maps')
+# negative control: an index that keeps every overload
+V('C11', 'short-name-index-all-overloads', T,
+  'edb.edgeql.tracer.TracerContext.get_ref_name_startswith',
+  '''        for objname in self.objects.keys():
+            short_name = str(objname).split('@@', 1)[0]
+            if short_name in prefixes:
+                refs.add(objname)
+''', '''        idx = {}
+        for o in self.objects:
+            idx.setdefault(str(o).split('@@', 1)[0], []).append(o)
+        for prefix in prefixes:
+            refs.update(idx.get(prefix, ()))
+''', None)
